@@ -6,7 +6,7 @@
   `conforms`).
   Theorems:
   * `arith_parse_correct` — for EVERY derivation of the grammar
-        E ::= E (+|-) T | T     T ::= T (*|/|%) F | F     F ::= atom | ( E ) | fn( E )
+        E ::= E (+|-) T | T     T ::= T (*|/|%) F | F     F ::= atom | ( E ) | { E } | fn( E )
     (any depth, any length), parsing its token sequence yields the tree the derivation denotes — operators of
     one level nested to the left, `*`,`/`,`%` below `+`,`-`, brackets overriding — and leaves exactly the tokens
     that follow.  Atoms are abstract (`AtomOK`); `atom_literal`, `atom_column`, `atom_quoted`,
